@@ -545,6 +545,54 @@ def boot_time_return(pl):
     raise NotRecognised("btime branch")
 
 
+# ---- seeded round 5: everything that touches the module global BOOT_TIME, the front end, create_time()
+
+def _body_stmts(fn):
+    """the statements of a function body, docstring dropped, each rendered on its own (compound statements whole)"""
+    body = list(fn.body)
+    if body and isinstance(body[0], ast.Expr) and isinstance(body[0].value, ast.Constant) and isinstance(body[0].value.value, str):
+        body = body[1:]
+    return [extract.unparse(st) for st in body]
+
+
+def boot_global_uses(mods):
+    """every place that names BOOT_TIME, in source order: '<module>/<qualified function>:<load|store|del|global>'
+    (a bare name in _pslinux, or an attribute `.BOOT_TIME` of anything, in the modules given)"""
+    out = []
+
+    def visit(node, qual, modname):
+        for ch in ast.iter_child_nodes(node):
+            q = qual
+            if isinstance(ch, (ast.FunctionDef, ast.AsyncFunctionDef, ast.ClassDef)):
+                q = ch.name if qual == "<module>" else qual + "." + ch.name
+            kind = None
+            if isinstance(ch, ast.Name) and ch.id == "BOOT_TIME":
+                kind = type(ch.ctx).__name__.lower()
+            elif isinstance(ch, ast.Attribute) and ch.attr == "BOOT_TIME":
+                kind = type(ch.ctx).__name__.lower()
+            elif isinstance(ch, (ast.Global, ast.Nonlocal)) and "BOOT_TIME" in ch.names:
+                kind = "global"
+            elif isinstance(ch, ast.Constant) and ch.value == "BOOT_TIME":
+                kind = "string"                      # getattr/setattr/globals()['BOOT_TIME'] spellings
+            if kind is not None:
+                out.append((ch.lineno, ch.col_offset, "%s/%s:%s" % (modname, qual, kind)))
+            visit(ch, q, modname)
+    res = []
+    for modname, tree in mods:
+        out = []
+        visit(tree, "<module>", modname)
+        res += [x[2] for x in sorted(out)]
+    return res
+
+
+def boot_time_front(init):
+    return _body_stmts(extract.find_def(init, "boot_time"))
+
+
+def create_time_body(pl):
+    return _body_stmts(extract.find_def(pl, "create_time", cls="Process"))
+
+
 def logical_tests(pl):
     """[test that counts a /proc/cpuinfo line, regex that counts a /proc/stat row, how the row's first field is cut]"""
     fn = extract.find_def(pl, "cpu_count_logical")
@@ -642,6 +690,14 @@ def facts(snap, F):
               "cpu_freq (sysfs variant): path of the `online` file probed for a policy without frequency files")
     F.try_add("bootTimeReturn", "List String", lambda: strs(boot_time_return(pl)),
               "boot_time(): [expression returned in the btime branch, what was assigned to it]")
+    # seeded round 5: the history dimension around the module global BOOT_TIME
+    F.try_add("bootGlobalUses", "List String",
+              lambda: strs(boot_global_uses([("_pslinux", pl), ("__init__", init), ("_common", common)])),
+              "every place that names BOOT_TIME in _pslinux / __init__ / _common: module/function:load|store|global, source order")
+    F.try_add("bootTimeFront", "List String", lambda: strs(boot_time_front(init)),
+              "psutil.boot_time(): the statements of its body (no caching in the front end)")
+    F.try_add("createTimeBody", "List String", lambda: strs(create_time_body(pl)),
+              "_pslinux.Process.create_time(): the statements of its body (reads the global, else boot_time())")
     F.try_add("logicalTests", "List String", lambda: strs(logical_tests(pl)),
               "cpu_count_logical: cpuinfo line test | stat row regex | how the row's first field is cut")
     F.try_add("cpuinfoFreqTest", "List String", lambda: strs(cpuinfo_freq_test(pl)),
